@@ -204,6 +204,62 @@ func c03Cases(tier string, seed uint64) []fw.Case {
 			cs = append(cs, fw.MkCase("stepwise", &sc))
 		}
 	}
+	// eight tokens per incoming flow: all of one producer's tokens queue up on their flow before the other
+	// producer delivers its first one (queues far longer than the gateway has incoming flows), in both directions,
+	// and in PRNG-chosen interleavings
+	{
+		var as, bs []string
+		for i := 1; i <= 8; i++ {
+			as = append(as, fmt.Sprintf("a%d", i))
+			bs = append(bs, fmt.Sprintf("b%d", i))
+		}
+		seqs := [][]string{append(append([]string(nil), as...), bs...), append(append([]string(nil), bs...), as...)}
+		rng := fw.NewRng(seed, "c03-deep")
+		nshuf := 4
+		if tier == "thorough" {
+			nshuf = 60
+		}
+		for i := 0; i < nshuf; i++ {
+			// a long run of one producer, then a shuffle of the rest
+			head := 5 + rng.Intn(4)
+			first, second := as, bs
+			if rng.Bool() {
+				first, second = bs, as
+			}
+			seq := append([]string(nil), first[:head]...)
+			rest := append(append([]string(nil), first[head:]...), second...)
+			rng.Shuffle(len(rest), func(x, y int) { rest[x], rest[y] = rest[y], rest[x] })
+			seqs = append(seqs, append(seq, rest...))
+		}
+		for m := 1; m <= 2; m++ {
+			g := c03PipeN(m, 8)
+			for si, seq := range seqs {
+				ref := refsem.New(g, nil, nil)
+				ref.StartAll()
+				var order []string
+				for _, u := range seq {
+					order = append(order, u)
+					ref.Answer(u, nil)
+					for guard := 0; guard < 40; guard++ {
+						next := ""
+						for _, t := range ref.PendingList() {
+							if t[0] == 'd' || t == "tl" {
+								next = t
+								break
+							}
+						}
+						if next == "" {
+							break
+						}
+						order = append(order, next)
+						ref.Answer(next, nil)
+					}
+				}
+				sc := step.Case{Name: fmt.Sprintf("pipe8-M%d-%d-%v", m, si, seq), G: g, Order: order, Family: "deep"}
+				cs = append(cs, fw.MkCase("stepwise", &sc))
+			}
+		}
+	}
 	// a branch without any node, at every position among the fork's outgoing and the join's incoming flows
 	for po := 0; po < 3; po++ {
 		for pi := 0; pi < 3; pi++ {
